@@ -1,0 +1,57 @@
+//go:build verif
+
+package p9p
+
+// Observational hooks for the verification harness in /verif.
+// Compiled only with -tags verif; they never change behaviour.
+
+// VerifFid describes one entry of an SFileSys session's fid table.
+type VerifFid struct {
+	Fid    Fid
+	Bound  bool   // Ent != nil
+	Ent    Dirent // the bound entry (nil when unbound)
+	Open   bool   // File != nil
+	File   File
+	Mode   Flag
+	Locked bool // the per-fid lock was held when sampled
+}
+
+// VerifFids dumps the fid table of a session created by SFileSys.
+// ok is false when s is not such a session.
+func VerifFids(s Session) (out []VerifFid, ok bool) {
+	sess, ok := s.(*session)
+	if !ok {
+		return nil, false
+	}
+	sess.refs.Range(func(k, v interface{}) bool {
+		fid, _ := k.(Fid)
+		ref, _ := v.(*SFid)
+		if ref == nil {
+			return true
+		}
+		e := VerifFid{Fid: fid}
+		if ref.TryLock() {
+			e.Bound = ref.Ent != nil
+			e.Ent = ref.Ent
+			e.Open = ref.File != nil
+			e.File = ref.File
+			e.Mode = ref.Mode
+			ref.Unlock()
+		} else {
+			e.Locked = true
+		}
+		out = append(out, e)
+		return true
+	})
+	return out, true
+}
+
+// VerifAllocateTag exposes the client's pure tag allocator: it returns the
+// tag chosen for hint when exactly the tags in taken are outstanding.
+func VerifAllocateTag(taken []Tag, hint Tag) (Tag, error) {
+	m := make(map[Tag]*fcallRequest, len(taken))
+	for _, t := range taken {
+		m[t] = nil
+	}
+	return allocateTag(nil, m, hint)
+}
